@@ -26,7 +26,11 @@ SPEC = dict(
           "after that close returned with the caller held before its re-lock (interposed pthread_mutex_lock)} + 0..200 us; both "
           "results are legal for the race, only 'error + global callback for that id' / 'left open' / a sanitizer report "
           "(use of the freed Impl) / ~Transport later than the longest timeout + 10 s fails. "
-          "real: 1-8 callers x 1-4 calls against {accepting, refusing, black-hole (backlog 0 + queued connection), "
+          "sched also issues all calls BEFORE the first start() in 1/10 of the plans (the engine queues the commands; the "
+          "harness start()s afterwards and the engine executes every queued Connect and, behind it, the Close the transport issued). "
+          "real: lifecycle {running 70 %, calls before the first start() 20 %, after start()+stop() before a restart 10 %; in the "
+          "last two the harness (re)starts after all calls returned and issues one later command}; 1-8 callers x 1-4 calls against "
+          "{accepting, refusing, black-hole (backlog 0 + queued connection), "
           "RST-after-accept, 10.255.255.1} with timeouts {0,1,2,5,20,100 ms}, 1/5 cancellable with a cancel at a generated time. "
           "Non-trivial = an engine event placed in/after the timeout path's close, or a completion within 2 ms of the expiry "
           "(sched); the victim's onConnect fired before the teardown began (teardown); a timeout <= 2 ms against a target whose "
